@@ -75,8 +75,15 @@ fn run_diag(xs: &[Vec<f64>], gs: &[Vec<f64>], grad_based: bool) -> Result<(Vec<f
         verif::collector_set(&mut col, &mut math, &xs[k], &gs[k], true);
         strat.update_estimators(&mut math, &col);
     }
+    let id0 = Transformation::<M>::transformation_id(&mm, &mut math);
+    let stds0 = math.box_array(verif::diag_stds(&mm)).to_vec();
     let changed = strat.adapt(&mut math, &mut mm);
     let stds = math.box_array(verif::diag_stds(&mm)).to_vec();
+    // a transformation whose scales changed must carry a new id: states whitened under the old scales are re-derived
+    // only when the id differs
+    if stds.iter().zip(&stds0).any(|(a, b)| a.to_bits() != b.to_bits()) && Transformation::<M>::transformation_id(&mm, &mut math) == id0 {
+        return Err("ID-UNCHANGED: the scales of the transformation changed but its transformation_id did not".into());
+    }
     let mean = math.box_array(verif::diag_mean(&mm)).to_vec();
     Ok((stds, mean, verif::diag_logdet(&mm), changed))
 }
@@ -99,6 +106,7 @@ pub fn check_diag_exact(c: &DiagCase) -> Outcome {
     }
     let (stds, mean, logdet, changed) = match run_diag(&xs, &gs, c.grad_based) {
         Ok(r) => r,
+        Err(e) if e.starts_with("ID-UNCHANGED") => return Outcome::fail("C08:update-without-new-id", e),
         Err(e) => return Outcome::fail("C08:diag-init-error", e),
     };
     if !changed {
